@@ -51,6 +51,14 @@ CHECKS = {
    technique='TLA+ spec Lattices.tla (order/join/meet over a language of type expressions) model-checked by TLC through LatticeCell.tla (all pairs and triples of every carrier; lattice laws, bounds, Dual/Reverse swap, changed-flag truthfulness as invariants); TLC-printed vectors and cell histories replayed through the real Lattice impls',
    text='Exhaustive over small carriers: for 39 lattice types (all shipped implementations and nested compositions) TLC enumerates every pair (quick: plus triples of the 30 smallest types; thorough: every triple), proves the laws on the specification and prescribes join, meet, join_mut/meet_mut result and changed flag, partial_cmp, top/bottom; lat-replay executes each vector and each three-step cell history on the real types (shared and uniquely owned Rc/Arc operands). Right level: each implementation is a finite case analysis; replaying the complete small scope is a decision procedure for it.',
    note='Trusted: TLC, the JSON codec in harness/lat-replay. Carriers are small (<= 32 values per type); generic element types are instantiated with i8/u8/bool/small sets.'),
+ "C13": dict(engine='life', ref='DESIGN.md section 6 (C13)',
+   technique='TLA+ specs AscentSem.tla (semantics) + LifeGen.tla (TLC enumerates / simulates run-push-run histories and checks incremental = fresh saturation on each) replayed on compiled programs; TraceSem.tla validates every recorded event of every call of the history',
+   text='Histories of one program value: (a) push* run (push* run)* with facts pushed into input AND derived relations between runs - exhaustive within tiny bounds, TLC simulation beyond - for programs without negation/aggregation; (b) run; run; run for every corpus program incl. negation, aggregation, lattices; serial, parallel and generate_run_timeout variants. TLC proves on each history that saturating incrementally equals a fresh run (model level) and TraceSem validates the real trace of every call: nothing may be inserted by a re-run of an unmodified value, no panic, after each run the relations equal the least model of everything pushed so far.',
+   note='Trusted: as C01. Pushed tuples are never already present; lattice relations are not pushed into after a run.'),
+ "C14": dict(engine='life', ref='DESIGN.md section 6 (C14)',
+   technique='crash-point enumeration under a virtual clock hook (the deadline fires at a chosen deadline check) + TLA+ trace validation (TraceSem.tla over AscentSem.tla): sound partial state after `false`, exact least model after the resuming call',
+   text='Fault enumeration over every point at which the deadline is observable: the number N of deadline checks of an uninterrupted run is measured per (program, input, serial/parallel variant), then run_timeout is made to return at every check k < N (all of them when N <= 8), followed by run() or by a chain of further interruptions; every event of every call is validated by TLC against the semantics (TraceSem): after `false` every tuple present is derivable and lattice values are below the final ones, after the final call the relations equal the least model of a single uninterrupted run.',
+   note='Trusted: as C01, plus the virtual clock (ascent::internal::verif::Instant) returning the number of deadline checks as elapsed time for the instant created by run_timeout. The deadline can only be observed where the generated code reads the clock; those points are enumerated.'),
 }
 
 REASON_TODO = "check under construction in this round: not claimed until its engine is registered here"
